@@ -278,3 +278,29 @@ fn k_index2_whole_file_two_entries() {
     }
     kani::cover!(true, "reachable");
 }
+
+fn nix_jamcrc(bytes: &[u8]) -> u32 { let mut c: u32 = 0xFFFF_FFFF; for b in bytes { c ^= *b as u32; for _ in 0..8 { c = if c & 1 == 1 { (c >> 1) ^ 0xEDB8_8320 } else { c >> 1 }; } } c }
+
+//@unit props=C12,C01 label=B tier=quick native=1 fn=sqpack::index::SqPackIndex::{calculate_partial_hash,calculate_hash} bound="by execution: 40 ASCII game paths of depth 2..6 in lower, upper and two mixed cases, through calculate_partial_hash and through calculate_hash of an index1 and an index2 header"
+//@desc a path hashes to the bit-serial JAMCRC of its lower-cased bytes: the whole path for index2, and for index1 the pair (file name after the last '/', directory before it); letter case never changes the hash
+#[test]
+fn native_path_hashes() {
+    let mut cases = 0u64;
+    let mk = |t: IndexType| { let mut b = vec![0u8; 2048]; b[0..8].copy_from_slice(b"SqPack\0\0"); b[12..16].copy_from_slice(&1024u32.to_le_bytes()); b[16..20].copy_from_slice(&1u32.to_le_bytes()); b[20..24].copy_from_slice(&2u32.to_le_bytes()); b[32] = 0xFF; b[33] = 0xFF;
+        b[1024..1028].copy_from_slice(&1024u32.to_le_bytes()); b[1032..1036].copy_from_slice(&2048u32.to_le_bytes()); b[1320] = t as u8; SqPackIndex::read(&mut Cursor::new(&b[..])).expect("header-only index parses") };
+    let (i1, i2) = (mk(IndexType::Index1), mk(IndexType::Index2));
+    let dirs = ["exd", "chara/equipment/e0001/model", "bg/ex1/01_roc_r2/common/texture", "music/ffxiv", "common/font", "ui/icon/000000", "vfx/common/eff", "shader/sm5/shpk"];
+    let files = ["root.exl", "c0101e0001_top.mdl", "r1a0_b0_flor1_d.tex", "BGM_System_Title.scd", "AXIS_12.fdt"];
+    for (di, d) in dirs.iter().enumerate() { for (fi, f) in files.iter().enumerate() {
+        let lower = format!("{d}/{f}").to_ascii_lowercase();
+        let (dl, fl) = lower.rsplit_once('/').unwrap();
+        for variant in 0..4usize {
+            let p: String = lower.chars().enumerate().map(|(i, c)| match variant { 0 => c, 1 => c.to_ascii_uppercase(), 2 => if (i + di) % 2 == 0 { c.to_ascii_uppercase() } else { c }, _ => if (i + fi) % 3 == 0 { c.to_ascii_uppercase() } else { c } }).collect();
+            assert_eq!(SqPackIndex::calculate_partial_hash(&p), nix_jamcrc(lower.as_bytes()), "partial hash of {p}");
+            assert!(i2.calculate_hash(&p) == Hash::FullPath(nix_jamcrc(lower.as_bytes())), "index2 hash of {p}");
+            assert!(i1.calculate_hash(&p) == Hash::SplitPath { name: nix_jamcrc(fl.as_bytes()), path: nix_jamcrc(dl.as_bytes()) }, "index1 hash of {p}: (file name, directory)");
+            cases += 1;
+        }
+    } }
+    println!("NATIVE native_path_hashes cases={cases}");
+}
